@@ -33,7 +33,7 @@ ASSUMPTIONS = [
     "'all HTTP requests issued on its behalf' includes requests that fail (refused, timed out, error status) and sub-requests whose context is left "
     "through an exception; a request cancelled in flight because a sibling stream failed ends after the logical request was read and is optional",
 ]
-REQUIRED_CLAUSES = ["a:logical-span", "a:dependent-timing", "a:no-leak", "b:span-start", "b:span-end", "b:own-span", "b:no-leak"]
+REQUIRED_CLAUSES = ["a:logical-span", "a:dependent-timing", "a:no-leak", "a:no-request-after-sampled", "b:span-start", "b:span-end", "b:own-span", "b:no-leak"]
 REQUIRED_FEATURES = {"a:nested-streams": 10, "a:concurrent-clients": 10, "a:limited-connections": 5, "a:scroll": 5, "a:failed-wire-request": 10, "a:last-wire-request-raised": 5,
                      "b:sibling-exits-out-of-start-order": 10, "b:lingering-child": 10, "b:multi-tree": 10, "b:failed-child-with-requests": 10}
 BUDGET = {"quick": {"cases": 7000, "seconds": 40}, "thorough": {"cases": 250000, "seconds": 600}}
@@ -406,6 +406,13 @@ def case_a(ctx, rng, explicit=None):
             feats.add("a:failed-wire-request")
             if any(w["fail"] in ("refused", "timeout") for w in culprits):
                 feats.add("a:last-wire-request-raised")
+        # a request that is sent (strictly) after its logical request has been sampled can be in no recorded span at all
+        ctx.clause("a:no-request-after-sampled")
+        late = [w for w in log.values() if w["id"] in e["wire"] and w["vt_start"] > T + 1e-9]
+        if late:
+            feats.add("a:request-after-sampled")
+            problems.append(("a:no-request-after-sampled", f"{where} was sampled at {T!r} with service_time {s['service_time']!r}, but {len(late)} HTTP request(s) were sent on its behalf after that "
+                             f"(first: {late[0]['path']} at {late[0]['vt_start']!r}..{late[0]['vt_end']!r}); request failed: {failed}", {"failed": failed, "late": len(late)}))
         sleep_s = [t["request_start"] - off for t in flat if t["operation-type"] == "sleep"]
         sleep_e = [t["request_end"] - off for t in flat if t["operation-type"] == "sleep"]
         starts = [w["vt_start"] for w in strict + culprits] + sleep_s
